@@ -286,6 +286,108 @@ theorem newAttr_wf (h : HashFn) (st : St) (dict : Nat) (parent : Option Nat) (ke
     have := hlt n hn
     omega
 
+/-! ### allocation failure while the file set grows (num_files_pre_hook) -/
+
+theorem dealloc_sub (s : St) (a : Nat) : ∀ n ∈ (dealloc s a).nodes, n ∈ s.nodes := by
+  intro n h
+  simp only [dealloc] at h
+  exact (List.mem_filter.mp h).1
+
+theorem dealloc_removes (s : St) (a : Nat) (hnext : s.next ≠ 0) : ∀ n ∈ (dealloc s a).nodes, n.id ≠ a := by
+  intro n h he
+  simp only [dealloc] at h
+  have h2 := (List.mem_filter.mp h).2
+  obtain ⟨f, hf⟩ := Nat.exists_eq_succ_of_ne_zero hnext
+  rw [hf, he] at h2
+  simp [isUnder] at h2
+
+theorem foldl_dealloc_next (l : List Node) : ∀ (s : St), (l.foldl (fun s c => dealloc s c.id) s).next = s.next := by
+  induction l with
+  | nil => intro s; rfl
+  | cons b bs ih => intro s; simp only [List.foldl_cons]; rw [ih]; rfl
+
+theorem foldl_dealloc_sub (l : List Node) (s : St) :
+    ∀ n ∈ (l.foldl (fun s c => dealloc s c.id) s).nodes, n ∈ s.nodes :=
+  mem_foldl_filter (fun (s : St) (c : Node) => dealloc s c.id) (fun s c => dealloc_sub s c.id) l s
+
+theorem foldl_dealloc_removes (l : List Node) : ∀ (s : St), s.next ≠ 0 → ∀ c ∈ l,
+    ∀ m ∈ (l.foldl (fun s c => dealloc s c.id) s).nodes, m.id ≠ c.id := by
+  induction l with
+  | nil => intro s _ c hc; simp at hc
+  | cons b bs ih =>
+    intro s hnext c hc m hm
+    simp only [List.foldl_cons] at hm
+    rcases List.mem_cons.mp hc with rfl | hc'
+    · exact dealloc_removes s c.id hnext m (foldl_dealloc_sub bs _ m hm)
+    · exact ih (dealloc s b.id) (by simpa [dealloc] using hnext) c hc' m hm
+
+/-- the roll-back adds nothing -/
+theorem numFiles_rollback_sub (st : St) (parent keep : Nat) :
+    ∀ n ∈ (numFilesRollback st parent keep).nodes, n ∈ st.nodes := by
+  unfold numFilesRollback
+  exact foldl_dealloc_sub _ st
+
+/-- **no stale slot.**  After the roll-back no slot directory `file.set.<N>`
+    with `N ≥ keep` is left below `file.set` — whichever slots had been created
+    completely or in part. -/
+theorem numFiles_rollback_no_stale (st : St) (parent keep : Nat) (hnext : st.next ≠ 0) :
+    ∀ c ∈ (numFilesRollback st parent keep).nodes, c.parent = some parent → c.ty = .dir → c.fidx < keep := by
+  intro c hc hp hty
+  apply Classical.byContradiction
+  intro hge
+  have hin : c ∈ st.nodes := numFiles_rollback_sub st parent keep c hc
+  have hv : c ∈ (children st.nodes parent).filter (fun c => c.ty == .dir && c.fidx ≥ keep) := by
+    simp only [children, List.mem_filter]
+    refine ⟨⟨hin, by simp [hp]⟩, ?_⟩
+    simp [hty]
+    omega
+  unfold numFilesRollback at hc
+  exact foldl_dealloc_removes _ st hnext c hv c hc rfl
+
+/-- **an allocation failure while the file set grows leaves no slot behind.**
+    `num_files_pre_hook` with a failing allocation in a new slot (the first new
+    one or a later one, at the directory, its `fd` or its `name`) answers
+    `system` and no slot directory numbered `cur` or higher exists afterwards:
+    the keys `file.set.<cur>` … are unknown again, as before the call. -/
+theorem numFiles_fail_no_stale (h : HashFn) (st : St) (dict : Nat) (attr : Node) (n cur slot stage parent : Nat)
+    (hp : attr.parent = some parent) (hlt : cur + slot < n)
+    (hnext : (numFilesPreFail h st dict attr n cur slot stage).1.next ≠ 0) :
+    (numFilesPreFail h st dict attr n cur slot stage).2 = .system ∧
+    ∀ c ∈ (numFilesPreFail h st dict attr n cur slot stage).1.nodes,
+      c.parent = some parent → c.ty = .dir → c.fidx < cur := by
+  unfold numFilesPreFail at hnext ⊢
+  simp only [hp, hlt, if_true] at hnext ⊢
+  refine ⟨trivial, ?_⟩
+  apply numFiles_rollback_no_stale
+  unfold numFilesRollback at hnext
+  rw [foldl_dealloc_next] at hnext
+  exact hnext
+
+/-! ### a derived attribute answers the same through every getter -/
+
+/-- **linux.version_code follows linux.uts.release.**  After the post-set hook
+    of the release string, the node `linux.version_code` — the one node that a
+    lookup by path, a reference, a sub-reference and an iterator position all
+    end in — is set and carries KERNEL_VERSION of the NEW release: no getter
+    can see the placeholder stored before revalidation. -/
+theorem version_code_follows_release (st : St) (rel uts vc : Node) (val : String) (l : Nat)
+    (h1 : rel.parent.bind st.get = some uts) (h2 : uts.parent = some l)
+    (h3 : findChildKey st l "version_code" = some vc)
+    (hv : st.get vc.id = some vc) (hty : vc.ty ≠ .dir) :
+    getById (utsReleasePost st rel val) vc.id =
+      some (true, vc.ty, "num:" ++ toString ((kernelVersion (tokStr val)).getD 0)) := by
+  unfold utsReleasePost
+  rw [h1]
+  simp only [h2, Option.bind_some, h3]
+  have g := get_after_set st vc.id false ("num:" ++ toString ((kernelVersion (tokStr val)).getD 0)) vc hv hty
+  unfold getById
+  cases hg : (setPlain st vc.id false ("num:" ++ toString ((kernelVersion (tokStr val)).getD 0))).get vc.id with
+  | none => rw [hg] at g; simp at g
+  | some m =>
+    rw [hg] at g
+    simp only [Option.map_some, Option.some.injEq, Prod.mk.injEq] at g ⊢
+    exact ⟨g.1, g.2.2.2.1, g.2.2.1⟩
+
 /-! ### non-vacuity: a concrete store (root, a directory with three children of which two are set) -/
 
 def exNodes : List Node :=
@@ -310,5 +412,30 @@ example : (iterAll (clearAttr exSt 1) 0) = [] := by decide
 example : getById (clearVolatile exSt 0) 4 = some (false, .num, "num:3") ∧
           getById (clearVolatile exSt 0) 2 = some (true, .num, "num:1") ∧
           getById (clearVolatile exSt 0) 1 = some (true, .dir, "") := by decide
+
+
+/-- a file set without slots: root, `set` (the directory file.set), `number` (hook numFiles, stored number 0) -/
+def exFsNum : Node :=
+  { id := 2, parent := some 1, key := "number", ty := .num, isset := false, persist := false, val := "num:0", dict := 0, tmpl := 2, hook := .numFiles, hidx := 0, fidx := 0 }
+def exFs : St :=
+  { nodes := [ exFsNum,
+      { id := 1, parent := some 0, key := "set", ty := .dir, isset := false, persist := false, val := "", dict := 0, tmpl := 1, hook := .none, hidx := 0, fidx := 0 },
+      { id := 0, parent := none, key := "", ty := .dir, isset := true, persist := false, val := "", dict := 0, tmpl := 0, hook := .none, hidx := 0, fidx := 0 } ],
+    next := 3, dicts := [{ root := 0, fallback := none }] }
+
+-- growing to three files creates three slots of three nodes each
+example : ((numFilesPre exHash exFs 0 exFsNum 3 0).1.nodes.length, (numFilesPre exHash exFs 0 exFsNum 3 0).2) = (12, Status.ok) := by decide
+-- an allocation failure in the first new slot (directory created, `fd` not) or in the second one (`name` missing):
+-- status system and the node list is the one before the call
+example : ((numFilesPreFail exHash exFs 0 exFsNum 3 0 0 1).1.nodes.map (·.id), (numFilesPreFail exHash exFs 0 exFsNum 3 0 0 1).2) =
+    ([2, 1, 0], Status.system) := by decide
+example : (numFilesPreFail exHash exFs 0 exFsNum 3 0 1 2).1.nodes.map (·.id) = exFs.nodes.map (·.id) := by decide
+example : (numFilesPreFail exHash exFs 0 exFsNum 3 0 2 0).1.nodes.map (·.id) = exFs.nodes.map (·.id) := by decide
+-- without the roll-back the partial slot would stay
+example : (numFilesPartial exHash exFs 0 1 0 2).nodes.length = 5 := by decide
+example : kernelVersion "5.4.0-verif" = some 328704 := by decide
+example : kernelVersion "6.12" = some 396288 := by decide
+example : kernelVersion "6.9.300" = some 395775 := by decide
+example : kernelVersion "x.1" = none := by decide
 
 end Kdf.Props.C13
